@@ -4,4 +4,192 @@ registry! {
     c07_lww_comm,        "C07", quick,    4, plain, 180 => c07::lww_commutative();
     c07_lww_idem,        "C07", quick,    4, plain, 180 => c07::lww_idempotent();
     c07_lww_assoc,       "C07", quick,    4, plain, 300 => c07::lww_associative();
+    c08_twin,            "C08", quick,    4, plain, 120 => c08::twin();
+    c08_reg_step,        "C08", quick,    4, plain, 120 => c08::reg_write_after_observe(); // all stamps < 2^62, 1-byte values
+    c08_state_write,     "C08", quick,    6, plain, 600 => c08::state_step(0); // one key, LWW values, arbitrary I-state + arbitrary remote delta, then record_write
+    c08_state_delete,    "C08", quick,    6, plain, 600 => c08::state_step(1); // same, then record_delete
+    c10_twin,            "C10", quick,    8, plain, 120 => c10::twin();
+    c10_decode_total_0,  "C10", quick,    20, plain, 120 => c10::decode_total(0); // payload length 0, all other bytes symbolic
+    c10_decode_total_1,  "C10", quick,    20, plain, 120 => c10::decode_total(1);
+    c10_decode_total_3,  "C10", quick,    20, plain, 180 => c10::decode_total(3);
+    c10_roundtrip_0,     "C10", quick,    8, plain, 120 => c10::roundtrip(0);
+    c10_roundtrip_2,     "C10", quick,    8, plain, 180 => c10::roundtrip(2);
+    c10_roundtrip_4,     "C10", thorough, 8, plain, 600 => c10::roundtrip(4);
+    c10_truncation_2,    "C10", quick,    8, plain, 300 => c10::truncation(2);
+    c10_bitflip_stamp_2, "C10", quick,    8, plain, 600 => c10::bitflip(2, 1);
+    c10_bitflip_crc_2,   "C10", quick,    8, plain, 600 => c10::bitflip(2, 2);
+    c10_bitflip_data_2,  "C10", quick,    8, plain, 600 => c10::bitflip(2, 3);
+    c10_bitflip_len_2,   "C10", quick,    8, plain, 600 => c10::bitflip(2, 0);
+    c15_twin, "C15", quick, 12, alloc, 120 => c15::twin();
+    c15_bulk_m2_t1, "C15", thorough, 12, alloc, 300 => c15::bulk(b"-2", None, 1); // '$' + length text "-2" + CRLF + 1 symbolic bytes; both decoders
+    c15_bulk_m2_t2, "C15", quick, 12, alloc, 1500 => c15::bulk(b"-2", None, 2); // '$' + length text "-2" + CRLF + 2 symbolic bytes; both decoders
+    c15_bulk_m1_t0, "C15", quick, 12, alloc, 300 => c15::bulk(b"-1", Some(-1), 0); // '$' + length text "-1" + CRLF + 0 symbolic bytes; both decoders
+    c15_bulk_m1_t2, "C15", thorough, 12, alloc, 300 => c15::bulk(b"-1", Some(-1), 2); // '$' + length text "-1" + CRLF + 2 symbolic bytes; both decoders
+    c15_bulk_0_t1, "C15", thorough, 12, alloc, 300 => c15::bulk(b"0", Some(0), 1); // '$' + length text "0" + CRLF + 1 symbolic bytes; both decoders
+    c15_bulk_0_t2, "C15", quick, 12, alloc, 300 => c15::bulk(b"0", Some(0), 2); // '$' + length text "0" + CRLF + 2 symbolic bytes; both decoders
+    c15_bulk_0_t3, "C15", thorough, 12, alloc, 300 => c15::bulk(b"0", Some(0), 3); // '$' + length text "0" + CRLF + 3 symbolic bytes; both decoders
+    c15_bulk_1_t2, "C15", thorough, 12, alloc, 300 => c15::bulk(b"1", Some(1), 2); // '$' + length text "1" + CRLF + 2 symbolic bytes; both decoders
+    c15_bulk_1_t3, "C15", quick, 12, alloc, 300 => c15::bulk(b"1", Some(1), 3); // '$' + length text "1" + CRLF + 3 symbolic bytes; both decoders
+    c15_bulk_1_t4, "C15", thorough, 12, alloc, 300 => c15::bulk(b"1", Some(1), 4); // '$' + length text "1" + CRLF + 4 symbolic bytes; both decoders
+    c15_bulk_2_t3, "C15", quick, 12, alloc, 300 => c15::bulk(b"2", Some(2), 3); // '$' + length text "2" + CRLF + 3 symbolic bytes; both decoders
+    c15_bulk_2_t4, "C15", quick, 12, alloc, 300 => c15::bulk(b"2", Some(2), 4); // '$' + length text "2" + CRLF + 4 symbolic bytes; both decoders
+    c15_bulk_2_t5, "C15", thorough, 12, alloc, 300 => c15::bulk(b"2", Some(2), 5); // '$' + length text "2" + CRLF + 5 symbolic bytes; both decoders
+    c15_bulk_3_t4, "C15", thorough, 12, alloc, 300 => c15::bulk(b"3", Some(3), 4); // '$' + length text "3" + CRLF + 4 symbolic bytes; both decoders
+    c15_bulk_3_t5, "C15", thorough, 12, alloc, 300 => c15::bulk(b"3", Some(3), 5); // '$' + length text "3" + CRLF + 5 symbolic bytes; both decoders
+    c15_bulk_3_t6, "C15", thorough, 12, alloc, 300 => c15::bulk(b"3", Some(3), 6); // '$' + length text "3" + CRLF + 6 symbolic bytes; both decoders
+    c15_bulk_2p31_t1, "C15", thorough, 14, alloc, 300 => c15::bulk(b"2147483648", Some(2147483648), 1); // '$' + length text "2147483648" + CRLF + 1 symbolic bytes; both decoders
+    c15_bulk_2p31_t2, "C15", thorough, 14, alloc, 300 => c15::bulk(b"2147483648", Some(2147483648), 2); // '$' + length text "2147483648" + CRLF + 2 symbolic bytes; both decoders
+    c15_bulk_i64max_t1, "C15", thorough, 26, alloc, 300 => c15::bulk(b"9223372036854775807", Some(9223372036854775807), 1); // '$' + length text "9223372036854775807" + CRLF + 1 symbolic bytes; both decoders
+    c15_bulk_i64max_t2, "C15", quick, 26, alloc, 300 => c15::bulk(b"9223372036854775807", Some(9223372036854775807), 2); // '$' + length text "9223372036854775807" + CRLF + 2 symbolic bytes; both decoders
+    c15_bulk_u64max_t1, "C15", thorough, 26, alloc, 300 => c15::bulk(b"18446744073709551615", None, 1); // '$' + length text "18446744073709551615" + CRLF + 1 symbolic bytes; both decoders
+    c15_bulk_u64max_t2, "C15", thorough, 26, alloc, 300 => c15::bulk(b"18446744073709551615", None, 2); // '$' + length text "18446744073709551615" + CRLF + 2 symbolic bytes; both decoders
+    c15_bulk_huge_t1, "C15", quick, 26, alloc, 300 => c15::bulk(b"99999999999999999999", None, 1); // '$' + length text "99999999999999999999" + CRLF + 1 symbolic bytes; both decoders
+    c15_bulk_huge_t2, "C15", thorough, 26, alloc, 300 => c15::bulk(b"99999999999999999999", None, 2); // '$' + length text "99999999999999999999" + CRLF + 2 symbolic bytes; both decoders
+    c15_bulk_empty_t1, "C15", quick, 12, alloc, 300 => c15::bulk(b"", None, 1); // '$' + length text "" + CRLF + 1 symbolic bytes; both decoders
+    c15_bulk_empty_t2, "C15", thorough, 12, alloc, 300 => c15::bulk(b"", None, 2); // '$' + length text "" + CRLF + 2 symbolic bytes; both decoders
+    c15_bulk_alpha_t1, "C15", thorough, 12, alloc, 300 => c15::bulk(b"x", None, 1); // '$' + length text "x" + CRLF + 1 symbolic bytes; both decoders
+    c15_bulk_alpha_t2, "C15", thorough, 12, alloc, 300 => c15::bulk(b"x", None, 2); // '$' + length text "x" + CRLF + 2 symbolic bytes; both decoders
+    c15_array_m2_n0, "C15", thorough, 12, alloc, 300 => c15::array(b"-2", None, 0, false); // '*' + length text "-2" + 0 one-byte bulk elements
+    c15_array_m2_n1, "C15", quick, 12, alloc, 1500 => c15::array(b"-2", None, 1, false); // '*' + length text "-2" + 1 one-byte bulk elements
+    c15_array_m1_n0, "C15", thorough, 12, alloc, 300 => c15::array(b"-1", Some(-1), 0, false); // '*' + length text "-1" + 0 one-byte bulk elements
+    c15_array_m1_n1, "C15", thorough, 12, alloc, 300 => c15::array(b"-1", Some(-1), 1, false); // '*' + length text "-1" + 1 one-byte bulk elements
+    c15_array_0_n0, "C15", thorough, 12, alloc, 300 => c15::array(b"0", Some(0), 0, false); // '*' + length text "0" + 0 one-byte bulk elements
+    c15_array_0_n1, "C15", thorough, 12, alloc, 300 => c15::array(b"0", Some(0), 1, false); // '*' + length text "0" + 1 one-byte bulk elements
+    c15_array_0_n1p, "C15", thorough, 12, alloc, 300 => c15::array(b"0", Some(0), 1, true); // '*' + length text "0" + 1 one-byte bulk elements (last one cut after its header)
+    c15_array_0_n2, "C15", thorough, 12, alloc, 300 => c15::array(b"0", Some(0), 2, false); // '*' + length text "0" + 2 one-byte bulk elements
+    c15_array_0_n2p, "C15", thorough, 12, alloc, 300 => c15::array(b"0", Some(0), 2, true); // '*' + length text "0" + 2 one-byte bulk elements (last one cut after its header)
+    c15_array_1_n0, "C15", thorough, 12, alloc, 300 => c15::array(b"1", Some(1), 0, false); // '*' + length text "1" + 0 one-byte bulk elements
+    c15_array_1_n1, "C15", thorough, 12, alloc, 300 => c15::array(b"1", Some(1), 1, false); // '*' + length text "1" + 1 one-byte bulk elements
+    c15_array_1_n1p, "C15", thorough, 12, alloc, 300 => c15::array(b"1", Some(1), 1, true); // '*' + length text "1" + 1 one-byte bulk elements (last one cut after its header)
+    c15_array_1_n2, "C15", quick, 12, alloc, 300 => c15::array(b"1", Some(1), 2, false); // '*' + length text "1" + 2 one-byte bulk elements
+    c15_array_1_n2p, "C15", thorough, 12, alloc, 300 => c15::array(b"1", Some(1), 2, true); // '*' + length text "1" + 2 one-byte bulk elements (last one cut after its header)
+    c15_array_2_n0, "C15", thorough, 12, alloc, 300 => c15::array(b"2", Some(2), 0, false); // '*' + length text "2" + 0 one-byte bulk elements
+    c15_array_2_n1, "C15", thorough, 12, alloc, 300 => c15::array(b"2", Some(2), 1, false); // '*' + length text "2" + 1 one-byte bulk elements
+    c15_array_2_n1p, "C15", thorough, 12, alloc, 300 => c15::array(b"2", Some(2), 1, true); // '*' + length text "2" + 1 one-byte bulk elements (last one cut after its header)
+    c15_array_2_n2, "C15", quick, 12, alloc, 300 => c15::array(b"2", Some(2), 2, false); // '*' + length text "2" + 2 one-byte bulk elements
+    c15_array_2_n2p, "C15", quick, 12, alloc, 300 => c15::array(b"2", Some(2), 2, true); // '*' + length text "2" + 2 one-byte bulk elements (last one cut after its header)
+    c15_array_3_n0, "C15", thorough, 12, alloc, 300 => c15::array(b"3", Some(3), 0, false); // '*' + length text "3" + 0 one-byte bulk elements
+    c15_array_3_n1, "C15", thorough, 12, alloc, 300 => c15::array(b"3", Some(3), 1, false); // '*' + length text "3" + 1 one-byte bulk elements
+    c15_array_3_n1p, "C15", thorough, 12, alloc, 300 => c15::array(b"3", Some(3), 1, true); // '*' + length text "3" + 1 one-byte bulk elements (last one cut after its header)
+    c15_array_3_n2, "C15", thorough, 12, alloc, 300 => c15::array(b"3", Some(3), 2, false); // '*' + length text "3" + 2 one-byte bulk elements
+    c15_array_3_n2p, "C15", thorough, 12, alloc, 300 => c15::array(b"3", Some(3), 2, true); // '*' + length text "3" + 2 one-byte bulk elements (last one cut after its header)
+    c15_array_2p31_n0, "C15", quick, 14, alloc, 300 => c15::array(b"2147483648", Some(2147483648), 0, false); // '*' + length text "2147483648" + 0 one-byte bulk elements
+    c15_array_2p31_n1, "C15", thorough, 14, alloc, 300 => c15::array(b"2147483648", Some(2147483648), 1, false); // '*' + length text "2147483648" + 1 one-byte bulk elements
+    c15_array_i64max_n0, "C15", thorough, 26, alloc, 300 => c15::array(b"9223372036854775807", Some(9223372036854775807), 0, false); // '*' + length text "9223372036854775807" + 0 one-byte bulk elements
+    c15_array_i64max_n1, "C15", quick, 26, alloc, 300 => c15::array(b"9223372036854775807", Some(9223372036854775807), 1, false); // '*' + length text "9223372036854775807" + 1 one-byte bulk elements
+    c15_array_huge_n0, "C15", thorough, 26, alloc, 300 => c15::array(b"99999999999999999999", None, 0, false); // '*' + length text "99999999999999999999" + 0 one-byte bulk elements
+    c15_array_huge_n1, "C15", thorough, 26, alloc, 300 => c15::array(b"99999999999999999999", None, 1, false); // '*' + length text "99999999999999999999" + 1 one-byte bulk elements
+    c15_prefix_bulk_c1, "C15", thorough, 12, alloc, 300 => c15::prefix_stable_bulk(1); // '$2' frame + 5 symbolic bytes, prefix of 1 bytes vs whole
+    c15_prefix_bulk_c3, "C15", thorough, 12, alloc, 300 => c15::prefix_stable_bulk(3); // '$2' frame + 5 symbolic bytes, prefix of 3 bytes vs whole
+    c15_prefix_bulk_c4, "C15", quick, 12, alloc, 300 => c15::prefix_stable_bulk(4); // '$2' frame + 5 symbolic bytes, prefix of 4 bytes vs whole
+    c15_prefix_bulk_c5, "C15", thorough, 12, alloc, 300 => c15::prefix_stable_bulk(5); // '$2' frame + 5 symbolic bytes, prefix of 5 bytes vs whole
+    c15_prefix_bulk_c6, "C15", quick, 12, alloc, 300 => c15::prefix_stable_bulk(6); // '$2' frame + 5 symbolic bytes, prefix of 6 bytes vs whole
+    c15_prefix_bulk_c7, "C15", thorough, 12, alloc, 300 => c15::prefix_stable_bulk(7); // '$2' frame + 5 symbolic bytes, prefix of 7 bytes vs whole
+    c15_prefix_bulk_c8, "C15", quick, 12, alloc, 300 => c15::prefix_stable_bulk(8); // '$2' frame + 5 symbolic bytes, prefix of 8 bytes vs whole
+    c09_twin, "C09", quick, 8, plain, 300 => c09::twin();
+    c09_group_commit_2, "C09", quick, 8, plain, 900 => c09::group_commit(2, true); // 2 appends + sync, rotation threshold symbolic in (16,200), symbolic append/fsync/create faults and partial writes
+    c09_group_commit_2_nofault, "C09", quick, 8, plain, 600 => c09::group_commit(2, false); // 2 appends + sync, rotation threshold symbolic, no faults (pure rotation case)
+    c09_group_commit_3, "C09", thorough, 8, plain, 1800 => c09::group_commit(3, true); // 3 appends + sync, symbolic threshold and faults
+    c09_group_commit_3_nofault, "C09", thorough, 8, plain, 1800 => c09::group_commit(3, false); // 3 appends + sync, symbolic threshold, no faults
+    c06_twin, "C06", quick, 6, plain, 300 => c06::twin();
+    c06_pair_set_set_pre0, "C06", quick, 6, plain, 1500 => c06::pair(0, 0, 0); // A: SET, B: SET on one key, pre-state absent; symbolic clocks and bytes; deltas cross-delivered once
+    c06_pair_set_set_pre1, "C06", quick, 6, plain, 1500 => c06::pair(0, 0, 1); // A: SET, B: SET on one key, pre-state common LWW value; symbolic clocks and bytes; deltas cross-delivered once
+    c06_pair_set_set_pre2, "C06", thorough, 6, plain, 1500 => c06::pair(0, 0, 2); // A: SET, B: SET on one key, pre-state common hash {f}; symbolic clocks and bytes; deltas cross-delivered once
+    c06_pair_set_del_pre0, "C06", thorough, 6, plain, 1500 => c06::pair(0, 1, 0); // A: SET, B: DEL on one key, pre-state absent; symbolic clocks and bytes; deltas cross-delivered once
+    c06_pair_set_del_pre1, "C06", quick, 6, plain, 1500 => c06::pair(0, 1, 1); // A: SET, B: DEL on one key, pre-state common LWW value; symbolic clocks and bytes; deltas cross-delivered once
+    c06_pair_set_del_pre2, "C06", thorough, 6, plain, 1500 => c06::pair(0, 1, 2); // A: SET, B: DEL on one key, pre-state common hash {f}; symbolic clocks and bytes; deltas cross-delivered once
+    c06_pair_set_hset_pre0, "C06", thorough, 6, plain, 1500 => c06::pair(0, 2, 0); // A: SET, B: HSET on one key, pre-state absent; symbolic clocks and bytes; deltas cross-delivered once
+    c06_pair_set_hset_pre1, "C06", thorough, 6, plain, 1500 => c06::pair(0, 2, 1); // A: SET, B: HSET on one key, pre-state common LWW value; symbolic clocks and bytes; deltas cross-delivered once
+    c06_pair_set_hset_pre2, "C06", thorough, 6, plain, 1500 => c06::pair(0, 2, 2); // A: SET, B: HSET on one key, pre-state common hash {f}; symbolic clocks and bytes; deltas cross-delivered once
+    c06_pair_set_hdel_pre0, "C06", thorough, 6, plain, 1500 => c06::pair(0, 3, 0); // A: SET, B: HDEL on one key, pre-state absent; symbolic clocks and bytes; deltas cross-delivered once
+    c06_pair_set_hdel_pre1, "C06", thorough, 6, plain, 1500 => c06::pair(0, 3, 1); // A: SET, B: HDEL on one key, pre-state common LWW value; symbolic clocks and bytes; deltas cross-delivered once
+    c06_pair_set_hdel_pre2, "C06", thorough, 6, plain, 1500 => c06::pair(0, 3, 2); // A: SET, B: HDEL on one key, pre-state common hash {f}; symbolic clocks and bytes; deltas cross-delivered once
+    c06_pair_del_del_pre1, "C06", thorough, 6, plain, 1500 => c06::pair(1, 1, 1); // A: DEL, B: DEL on one key, pre-state common LWW value; symbolic clocks and bytes; deltas cross-delivered once
+    c06_pair_del_del_pre2, "C06", thorough, 6, plain, 1500 => c06::pair(1, 1, 2); // A: DEL, B: DEL on one key, pre-state common hash {f}; symbolic clocks and bytes; deltas cross-delivered once
+    c06_pair_del_hset_pre0, "C06", thorough, 6, plain, 1500 => c06::pair(1, 2, 0); // A: DEL, B: HSET on one key, pre-state absent; symbolic clocks and bytes; deltas cross-delivered once
+    c06_pair_del_hset_pre1, "C06", thorough, 6, plain, 1500 => c06::pair(1, 2, 1); // A: DEL, B: HSET on one key, pre-state common LWW value; symbolic clocks and bytes; deltas cross-delivered once
+    c06_pair_del_hset_pre2, "C06", thorough, 6, plain, 1500 => c06::pair(1, 2, 2); // A: DEL, B: HSET on one key, pre-state common hash {f}; symbolic clocks and bytes; deltas cross-delivered once
+    c06_pair_del_hdel_pre1, "C06", thorough, 6, plain, 1500 => c06::pair(1, 3, 1); // A: DEL, B: HDEL on one key, pre-state common LWW value; symbolic clocks and bytes; deltas cross-delivered once
+    c06_pair_del_hdel_pre2, "C06", thorough, 6, plain, 1500 => c06::pair(1, 3, 2); // A: DEL, B: HDEL on one key, pre-state common hash {f}; symbolic clocks and bytes; deltas cross-delivered once
+    c06_pair_hset_hset_pre0, "C06", thorough, 6, plain, 1500 => c06::pair(2, 2, 0); // A: HSET, B: HSET on one key, pre-state absent; symbolic clocks and bytes; deltas cross-delivered once
+    c06_pair_hset_hset_pre1, "C06", thorough, 6, plain, 1500 => c06::pair(2, 2, 1); // A: HSET, B: HSET on one key, pre-state common LWW value; symbolic clocks and bytes; deltas cross-delivered once
+    c06_pair_hset_hset_pre2, "C06", thorough, 6, plain, 1500 => c06::pair(2, 2, 2); // A: HSET, B: HSET on one key, pre-state common hash {f}; symbolic clocks and bytes; deltas cross-delivered once
+    c06_pair_hset_hdel_pre0, "C06", thorough, 6, plain, 1500 => c06::pair(2, 3, 0); // A: HSET, B: HDEL on one key, pre-state absent; symbolic clocks and bytes; deltas cross-delivered once
+    c06_pair_hset_hdel_pre1, "C06", thorough, 6, plain, 1500 => c06::pair(2, 3, 1); // A: HSET, B: HDEL on one key, pre-state common LWW value; symbolic clocks and bytes; deltas cross-delivered once
+    c06_pair_hset_hdel_pre2, "C06", thorough, 6, plain, 1500 => c06::pair(2, 3, 2); // A: HSET, B: HDEL on one key, pre-state common hash {f}; symbolic clocks and bytes; deltas cross-delivered once
+    c06_pair_hdel_hdel_pre1, "C06", thorough, 6, plain, 1500 => c06::pair(3, 3, 1); // A: HDEL, B: HDEL on one key, pre-state common LWW value; symbolic clocks and bytes; deltas cross-delivered once
+    c06_pair_hdel_hdel_pre2, "C06", thorough, 6, plain, 1500 => c06::pair(3, 3, 2); // A: HDEL, B: HDEL on one key, pre-state common hash {f}; symbolic clocks and bytes; deltas cross-delivered once
+    c06_dup_reorder, "C06", thorough, 6, plain, 1500 => c06::dup_reorder(); // SET/SET with each delta delivered twice
+    c03_twin, "C03", quick, 8, hasher, 120 => c03::twin();
+    c03_route_l0_n1, "C03", thorough, 8, hasher, 600 => c03::routing_agree(0, 1); // key = 0 symbolic ASCII bytes, 1 shards, transparent hasher
+    c03_route_l0_n2, "C03", thorough, 8, hasher, 600 => c03::routing_agree(0, 2); // key = 0 symbolic ASCII bytes, 2 shards, transparent hasher
+    c03_route_l0_n3, "C03", quick, 8, hasher, 600 => c03::routing_agree(0, 3); // key = 0 symbolic ASCII bytes, 3 shards, transparent hasher
+    c03_route_l0_n16, "C03", thorough, 8, hasher, 600 => c03::routing_agree(0, 16); // key = 0 symbolic ASCII bytes, 16 shards, transparent hasher
+    c03_route_l0_n64, "C03", thorough, 8, hasher, 600 => c03::routing_agree(0, 64); // key = 0 symbolic ASCII bytes, 64 shards, transparent hasher
+    c03_route_l1_n1, "C03", thorough, 8, hasher, 600 => c03::routing_agree(1, 1); // key = 1 symbolic ASCII bytes, 1 shards, transparent hasher
+    c03_route_l1_n2, "C03", thorough, 8, hasher, 600 => c03::routing_agree(1, 2); // key = 1 symbolic ASCII bytes, 2 shards, transparent hasher
+    c03_route_l1_n3, "C03", thorough, 8, hasher, 600 => c03::routing_agree(1, 3); // key = 1 symbolic ASCII bytes, 3 shards, transparent hasher
+    c03_route_l1_n16, "C03", quick, 8, hasher, 600 => c03::routing_agree(1, 16); // key = 1 symbolic ASCII bytes, 16 shards, transparent hasher
+    c03_route_l1_n64, "C03", thorough, 8, hasher, 600 => c03::routing_agree(1, 64); // key = 1 symbolic ASCII bytes, 64 shards, transparent hasher
+    c03_route_l2_n1, "C03", thorough, 8, hasher, 600 => c03::routing_agree(2, 1); // key = 2 symbolic ASCII bytes, 1 shards, transparent hasher
+    c03_route_l2_n2, "C03", quick, 8, hasher, 600 => c03::routing_agree(2, 2); // key = 2 symbolic ASCII bytes, 2 shards, transparent hasher
+    c03_route_l2_n3, "C03", thorough, 8, hasher, 600 => c03::routing_agree(2, 3); // key = 2 symbolic ASCII bytes, 3 shards, transparent hasher
+    c03_route_l2_n16, "C03", thorough, 8, hasher, 600 => c03::routing_agree(2, 16); // key = 2 symbolic ASCII bytes, 16 shards, transparent hasher
+    c03_route_l2_n64, "C03", thorough, 8, hasher, 600 => c03::routing_agree(2, 64); // key = 2 symbolic ASCII bytes, 64 shards, transparent hasher
+    c03_route_l3_n1, "C03", thorough, 8, hasher, 600 => c03::routing_agree(3, 1); // key = 3 symbolic ASCII bytes, 1 shards, transparent hasher
+    c03_route_l3_n2, "C03", thorough, 8, hasher, 600 => c03::routing_agree(3, 2); // key = 3 symbolic ASCII bytes, 2 shards, transparent hasher
+    c03_route_l3_n3, "C03", thorough, 8, hasher, 600 => c03::routing_agree(3, 3); // key = 3 symbolic ASCII bytes, 3 shards, transparent hasher
+    c03_route_l3_n16, "C03", thorough, 8, hasher, 600 => c03::routing_agree(3, 16); // key = 3 symbolic ASCII bytes, 16 shards, transparent hasher
+    c03_route_l3_n64, "C03", quick, 8, hasher, 600 => c03::routing_agree(3, 64); // key = 3 symbolic ASCII bytes, 64 shards, transparent hasher
+    c03_home_rpoplpush, "C03", quick, 8, hasher, 600 => c03::single_home(0, 2); // RPOPLPUSH with two distinct symbolic 1-byte keys, 2 shards
+    c03_home_lmove, "C03", thorough, 8, hasher, 600 => c03::single_home(1, 2); // LMOVE with two distinct symbolic 1-byte keys, 2 shards
+    c03_home_rename, "C03", quick, 8, hasher, 600 => c03::single_home(2, 2); // RENAME with two distinct symbolic 1-byte keys, 2 shards
+    c03_home_renamenx, "C03", thorough, 8, hasher, 600 => c03::single_home(3, 2); // RENAMENX with two distinct symbolic 1-byte keys, 2 shards
+    c03_home_msetnx, "C03", quick, 8, hasher, 600 => c03::single_home(4, 2); // MSETNX with two distinct symbolic 1-byte keys, 2 shards
+    c03_home_sortstore, "C03", thorough, 8, hasher, 600 => c03::single_home(5, 2); // SORTSTORE with two distinct symbolic 1-byte keys, 2 shards
+    c03_primary_0, "C03", quick, 8, plain, 300 => c03::primary_is_only_key(0); // single-key command: routing key == its key
+    c03_primary_1, "C03", quick, 8, plain, 300 => c03::primary_is_only_key(1); // single-key command: routing key == its key
+    c03_primary_2, "C03", thorough, 8, plain, 300 => c03::primary_is_only_key(2); // single-key command: routing key == its key
+    c03_primary_3, "C03", thorough, 8, plain, 300 => c03::primary_is_only_key(3); // single-key command: routing key == its key
+    c03_primary_4, "C03", thorough, 8, plain, 300 => c03::primary_is_only_key(4); // single-key command: routing key == its key
+    c03_primary_5, "C03", thorough, 8, plain, 300 => c03::primary_is_only_key(5); // single-key command: routing key == its key
+    c03_primary_6, "C03", thorough, 8, plain, 300 => c03::primary_is_only_key(6); // single-key command: routing key == its key
+    c03_primary_7, "C03", thorough, 8, plain, 300 => c03::primary_is_only_key(7); // single-key command: routing key == its key
+    c03_primary_8, "C03", quick, 8, plain, 300 => c03::primary_is_only_key(8); // single-key command: routing key == its key
+    c03_primary_9, "C03", thorough, 8, plain, 300 => c03::primary_is_only_key(9); // single-key command: routing key == its key
+    c18_twin, "C18", quick, 8, hasher, 120 => c18::twin();
+    c18_bucket_order_2, "C18", quick, 8, hasher, 300 => c18::bucket_order(2); // 2 arbitrary key digests, both orders
+    c18_bucket_order_3, "C18", quick, 8, hasher, 600 => c18::bucket_order(3); // 3 arbitrary key digests, all 6 orders
+    c18_state_order_d0, "C18", quick, 8, hasher, 900 => c18::state_insertion_order(0); // keys a,b with symbolic LWW values, two insertion orders, 1 bucket
+    c18_state_order_d1, "C18", thorough, 8, hasher, 1500 => c18::state_insertion_order(1); // same, 2 buckets
+    c18_sound_lww, "C18", quick, 8, hasher, 600 => c18::key_digest_sound(0); // two LWW values of one key with symbolic stamps/bytes/tombstones
+    c18_sound_expiry, "C18", quick, 8, hasher, 600 => c18::key_digest_sound(1); // same LWW value, symbolic expiries
+    c18_sound_hash, "C18", quick, 8, hasher, 900 => c18::key_digest_sound(2); // hash {f} with equal outer stamp, different field registers
+    c19_twin, "C19", quick, 8, plain, 300 => c19::twin();
+    c19_from_config_3, "C19", quick, 8, plain, 600 => c19::from_config_ids(3); // 3-node cluster, replica_id symbolic in 1..=3
+    c19_from_config_5, "C19", thorough, 8, plain, 1200 => c19::from_config_ids(5); // 5-node cluster, replica_id symbolic in 1..=5
+    c15_line_plus_t1_codec, "C15", thorough, 12, alloc, 400 => c15::line(43, 1, 1); // type byte '+' + 1 symbolic bytes, codec decoder
+    c15_line_plus_t1_parser, "C15", thorough, 10, alloc, 900 => c15::line(43, 1, 2); // type byte '+' + 1 symbolic bytes, parser decoder
+    c15_line_plus_t2_codec, "C15", thorough, 12, alloc, 400 => c15::line(43, 2, 1); // type byte '+' + 2 symbolic bytes, codec decoder
+    c15_line_plus_t2_parser, "C15", quick, 10, alloc, 900 => c15::line(43, 2, 2); // type byte '+' + 2 symbolic bytes, parser decoder
+    c15_line_plus_t3_codec, "C15", quick, 12, alloc, 400 => c15::line(43, 3, 1); // type byte '+' + 3 symbolic bytes, codec decoder
+    c15_line_plus_t3_parser, "C15", thorough, 10, alloc, 900 => c15::line(43, 3, 2); // type byte '+' + 3 symbolic bytes, parser decoder
+    c15_line_plus_t4_codec, "C15", thorough, 12, alloc, 400 => c15::line(43, 4, 1); // type byte '+' + 4 symbolic bytes, codec decoder
+    c15_line_plus_t4_parser, "C15", thorough, 10, alloc, 900 => c15::line(43, 4, 2); // type byte '+' + 4 symbolic bytes, parser decoder
+    c15_line_minus_t1_codec, "C15", thorough, 12, alloc, 400 => c15::line(45, 1, 1); // type byte '-' + 1 symbolic bytes, codec decoder
+    c15_line_minus_t1_parser, "C15", thorough, 10, alloc, 900 => c15::line(45, 1, 2); // type byte '-' + 1 symbolic bytes, parser decoder
+    c15_line_minus_t2_codec, "C15", quick, 12, alloc, 400 => c15::line(45, 2, 1); // type byte '-' + 2 symbolic bytes, codec decoder
+    c15_line_minus_t2_parser, "C15", thorough, 10, alloc, 900 => c15::line(45, 2, 2); // type byte '-' + 2 symbolic bytes, parser decoder
+    c15_line_minus_t3_codec, "C15", thorough, 12, alloc, 400 => c15::line(45, 3, 1); // type byte '-' + 3 symbolic bytes, codec decoder
+    c15_line_minus_t3_parser, "C15", thorough, 10, alloc, 900 => c15::line(45, 3, 2); // type byte '-' + 3 symbolic bytes, parser decoder
+    c15_line_minus_t4_codec, "C15", thorough, 12, alloc, 400 => c15::line(45, 4, 1); // type byte '-' + 4 symbolic bytes, codec decoder
+    c15_line_minus_t4_parser, "C15", thorough, 10, alloc, 900 => c15::line(45, 4, 2); // type byte '-' + 4 symbolic bytes, parser decoder
+    c15_line_colon_t1_codec, "C15", thorough, 12, alloc, 400 => c15::line(58, 1, 1); // type byte ':' + 1 symbolic bytes, codec decoder
+    c15_line_colon_t1_parser, "C15", thorough, 10, alloc, 900 => c15::line(58, 1, 2); // type byte ':' + 1 symbolic bytes, parser decoder
+    c15_line_colon_t2_codec, "C15", thorough, 12, alloc, 400 => c15::line(58, 2, 1); // type byte ':' + 2 symbolic bytes, codec decoder
+    c15_line_colon_t2_parser, "C15", thorough, 10, alloc, 900 => c15::line(58, 2, 2); // type byte ':' + 2 symbolic bytes, parser decoder
+    c15_line_colon_t3_codec, "C15", quick, 12, alloc, 400 => c15::line(58, 3, 1); // type byte ':' + 3 symbolic bytes, codec decoder
+    c15_line_colon_t3_parser, "C15", thorough, 10, alloc, 900 => c15::line(58, 3, 2); // type byte ':' + 3 symbolic bytes, parser decoder
+    c15_line_colon_t4_codec, "C15", thorough, 12, alloc, 400 => c15::line(58, 4, 1); // type byte ':' + 4 symbolic bytes, codec decoder
+    c15_line_colon_t4_parser, "C15", thorough, 10, alloc, 900 => c15::line(58, 4, 2); // type byte ':' + 4 symbolic bytes, parser decoder
 }
